@@ -2,6 +2,8 @@ package sim
 
 import (
 	"os"
+
+	oraclekeeper "github.com/ExocoreNetwork/exocore/x/oracle/keeper"
 	"encoding/json"
 	"fmt"
 	"sort"
@@ -125,6 +127,7 @@ func NewStats() Stats {
 
 // Run is one simulated execution.
 type Run struct {
+	Tier    string
 	Prop    string
 	Seed    uint64
 	Cfg     Config
@@ -480,6 +483,9 @@ func (r *Run) ExecBlock(bi int, b Block) {
 	}
 	r.LastBegin = bbRes
 	r.LastEvidence = evs
+	if os.Getenv("EXOSIM_ORACLE_DUMP") != "" {
+		fmt.Printf("---- primary after BeginBlock %d\n%s", h, oraclekeeper.VerifDumpDeliver())
+	}
 	r.PendingDogfoodUndelegations = nil
 	if r.Node.App.StakingKeeper.IsEpochEnd(n.DeliverCtx(c)) {
 		for _, k := range r.Node.App.StakingKeeper.GetPendingUndelegations(n.DeliverCtx(c)).List {
